@@ -61,14 +61,18 @@ def _reader_session(rng, ns):
     return ops, s
 
 
-def _reader_prog(rng, ns, nsess):
+def _acq(rng, timed):
+    return rng.weighted([(6, LS), (1, TLS), (1, TLSF), (1, TLSU)]) if timed else rng.weighted([(6, LS), (2, TLS)])
+
+
+def _reader_prog(rng, ns, nsess, timed=True):
     """sessions of snapshots; snapshots are kept across later sessions and re-read"""
     ops, held = [], []
     for _ in range(nsess):
         free = [x for x in range(ns) if x not in held]
         if free and (not held or rng.chance(3, 4)):
             s = rng.pick(free)
-            ops.append([rng.weighted([(6, LS), (1, TLS), (1, TLSF), (1, TLSU)]), s])
+            ops.append([_acq(rng, timed), s])
             held.append(s)
         for _ in range(rng.range(0, 2)):
             if held:
@@ -94,6 +98,7 @@ def _reader_prog(rng, ns, nsess):
 def gen(rng, tier, spec):
     nt = rng.weighted([(1, 1), (5, 2), (6, 3), (3, 4)])
     nw, ns = rng.range(1, 2), rng.range(1, 3)
+    timed = rng.below(2)      # outer mutex kind: 0 std::mutex, 1 std::timed_mutex
     vals = _Vals()
     edge = rng.below(24)
     progs = []
@@ -108,15 +113,15 @@ def gen(rng, tier, spec):
             for _ in range(rng.range(1, 2)):
                 p += _writer_session(rng, nw, vals)
         elif role == 'r':
-            p = _reader_prog(rng, ns, rng.range(1, 3))
+            p = _reader_prog(rng, ns, rng.range(1, 3), timed)
         else:
             for _ in range(rng.range(1, 3)):
                 if rng.chance(1, 2):
                     p += _writer_session(rng, nw, vals)
                 else:
-                    p += _reader_prog(rng, ns, 1)
+                    p += _reader_prog(rng, ns, 1, timed)
         if not p:
-            p = _reader_prog(rng, ns, 1) or [[LS, 0]]
+            p = _reader_prog(rng, ns, 1, timed) or [[LS, 0]]
         progs.append(p)
     if edge == 0:
         # a write handle that is never released: every later lock() blocks (verdict deadlock)
@@ -127,7 +132,7 @@ def gen(rng, tier, spec):
         t = rng.below(nt)
         extra = [rng.pick([[WRITE, 0, 3], [INCR, 0], [READH, 0], [RELEASE, 0], [RELEASE_UNW, 0], [RELEASE_UNW, nw], [CANCEL, 0], [MOVE, 0, 1], [MOVE, 0, 0],
                            [READS, 0], [DROPS, 0], [COPYS, 0, 1], [LOCK, nw], [LS, ns], [READS, ns + 1], [1, 0], [2, 0], [3, 0],
-                           [LS, 0], [LS, 0], [COPYS, 0, 0]])
+                           [LS, 0], [LS, 0], [COPYS, 0, 0], [TLSF, 0], [TLSU, 0]])
                  for _ in range(rng.range(1, 4))]
         progs[t] = extra + progs[t] if rng.chance(1, 2) else progs[t] + extra
     elif edge == 2 and nw > 1:
@@ -174,7 +179,7 @@ def gen(rng, tier, spec):
         sched = R.sched_runs(rng, nt, rng.range(0, 160), 12, cw)
     else:
         sched = R.any_sched(rng, nt, 160, cw)
-    return {'cfg': [nw, ns, rng.range(1, 5), rng.below(2)] + plan, 'progs': progs, 'sched': sched}
+    return {'cfg': [nw, ns, rng.range(1, 5), timed] + plan, 'progs': progs, 'sched': sched}
 
 
 def gen_small(rng, spec):
